@@ -22,6 +22,7 @@ import (
 	"os"
 	"sort"
 	"strings"
+	"runtime"
 	"sync"
 
 	"github.com/benhoyt/goawk/interp"
@@ -31,15 +32,18 @@ import (
 )
 
 type c13Op struct {
-	K string `json:"k"`           // p gt app pipe close ff ffa sys gf exit fail
+	K string `json:"k"`           // p gt app pipe close ff ffa sys gf exit fail | ofs ors rec (assignments to OFS, ORS, $0; C = the value)
 	N string `json:"n,omitempty"` // symbolic name
-	C string `json:"c,omitempty"` // bytes written
+	C string `json:"c,omitempty"` // bytes written (F == "": the statement is chosen from C and the position, see c13Form)
 	V int    `json:"v,omitempty"` // exit code
+	F string `json:"f,omitempty"` // p gt app pipe: "" | "print" (print A[0], A[1], …; no A: bare print of $0) | "printf" (printf "%s%s…", A…) | "fmt" (printf C: C itself is the format)
+	A []string `json:"a,omitempty"`
 }
 
 type c13Case struct {
 	Out  string  `json:"out"`            // plain | bufio | rec | bytesbuf
 	Fail int     `json:"fail"`           // -1: never; k: the underlying stdout accepts k bytes, then fails
+	NL   string  `json:"nl,omitempty"`   // Config.NewlineOutput: "" (not set = smart) | smart | raw | crlf; binary stream: -N <nl>
 	Ops  []c13Op `json:"ops"`
 	Raw  string  `json:"raw,omitempty"`  // a fixed program instead of Ops (F25 witness; binary stream)
 	Want string  `json:"want,omitempty"` // its expected stdout
@@ -73,7 +77,8 @@ func c13Real(d, sym string) string {
 	case sym == "nap":
 		return "sleep 0.25"
 	case strings.HasPrefix(sym, "echo"):
-		return "tac | tac #" + sym
+		// copies its input to the shared stdout, byte for byte, only after it has seen EOF
+		return fmt.Sprintf("cat > %s/%s.tmp; cat %s/%s.tmp; rm -f %s/%s.tmp", d, sym, d, sym, d, sym)
 	case strings.HasPrefix(sym, "snap_"):
 		return fmt.Sprintf("cat %s/%s >> %s/%s.out 2>/dev/null; true", d, sym[5:], d, sym)
 	case strings.HasPrefix(sym, "say_"):
@@ -84,11 +89,126 @@ func c13Real(d, sym string) string {
 	return d + "/" + sym
 }
 
-func c13Render(cs *c13Case, d string) string {
+// ---- print statements, their writes, and the newline-output mode ----------------------------------------------------------
+//
+// The rule, from interp/io.go (printLine, printArgs, writeOutput) and interp/vm.go (Printf): every piece of a print statement
+// is ONE call of writeOutput — `print a, b` makes the writes a, OFS, b, ORS; a bare `print` makes $0, ORS; printf makes one
+// write of the formatted string. writeOutput transforms its argument per write: in CRLF mode (Config.NewlineOutput =
+// CRLFNewlineMode; the smart mode only on Windows) every CR LF pair of the write is read as LF and then every LF goes out as
+// CR LF; otherwise the bytes go out as they are. A destination receives the concatenation of the transformed writes — so a
+// CR at the end of one write followed by an LF at the start of the next is NOT a pair: both are delivered (CR CR LF).
+
+type c13Stmt struct {
+	Printf bool     // printf (one write) or print (a write per piece)
+	Args   []string // print: the arguments (none: bare print); printf: the arguments of the "%s…" format
+	Fmt    string   // IsFmt: printf with this literal format string (no conversion in it)
+	IsFmt  bool
+	Writes []string // the arguments of the writeOutput calls, in order
+}
+
+func c13IsSet(k string) bool { return k == "ofs" || k == "ors" || k == "rec" }
+
+func c13IsPrint(k string) bool { return k == "p" || k == "gt" || k == "app" || k == "pipe" }
+
+// c13Stmts: the statement each print operation stands for (nil entries for the other operations)
+func c13Stmts(cs *c13Case) []*c13Stmt {
+	ofs, ors, rec := " ", "\n", ""
+	res := make([]*c13Stmt, len(cs.Ops))
+	for i, op := range cs.Ops {
+		switch op.K {
+		case "ofs":
+			ofs = op.C
+		case "ors":
+			ors = op.C
+		case "rec":
+			rec = op.C
+		}
+		if !c13IsPrint(op.K) {
+			continue
+		}
+		st := &c13Stmt{}
+		switch op.F {
+		case "print":
+			st.Args = op.A
+			if len(op.A) == 0 {
+				st.Writes = []string{rec, ors}
+			} else {
+				for k, a := range op.A {
+					if k > 0 {
+						st.Writes = append(st.Writes, ofs)
+					}
+					st.Writes = append(st.Writes, a)
+				}
+				st.Writes = append(st.Writes, ors)
+			}
+		case "printf":
+			st.Printf, st.Args, st.Writes = true, op.A, []string{strings.Join(op.A, "")}
+		case "fmt":
+			st.Printf, st.IsFmt, st.Fmt, st.Writes = true, true, op.C, []string{op.C}
+		default:
+			if strings.HasSuffix(op.C, "\n") && i%3 != 0 && ors == "\n" {
+				st.Args = []string{strings.TrimSuffix(op.C, "\n")}
+				st.Writes = []string{st.Args[0], ors}
+			} else {
+				st.Printf, st.Args, st.Writes = true, []string{op.C}, []string{op.C}
+			}
+		}
+		res[i] = st
+	}
+	return res
+}
+
+func c13CRLF(nl string) bool { return nl == "crlf" || ((nl == "" || nl == "smart") && runtime.GOOS == "windows") }
+
+// c13Xf: what one writeOutput call hands to the writer
+func c13Xf(crlf bool, w string) string {
+	if !crlf {
+		return w
+	}
+	var b []byte
+	for i := 0; i < len(w); i++ {
+		switch {
+		case w[i] == '\r' && i+1 < len(w) && w[i+1] == '\n': // a CR LF pair inside one write stays one line end
+			b = append(b, '\r', '\n')
+			i++
+		case w[i] == '\n':
+			b = append(b, '\r', '\n')
+		default:
+			b = append(b, w[i])
+		}
+	}
+	return string(b)
+}
+
+// c13Eff: per operation, the bytes its destination must receive
+func c13Eff(cs *c13Case) []string {
+	crlf := c13CRLF(cs.NL)
+	res := make([]string, len(cs.Ops))
+	for i, st := range c13Stmts(cs) {
+		if st == nil {
+			continue
+		}
+		for _, w := range st.Writes {
+			res[i] += c13Xf(crlf, w)
+		}
+	}
+	return res
+}
+
+func c13Render(cs *c13Case, d string) string { return c13RenderOpt(cs, d, true) }
+
+func c13RenderOpt(cs *c13Case, d string, events bool) string {
 	var b strings.Builder
 	b.WriteString("BEGIN {\n")
 	q := func(s string) string {
-		return `"` + strings.NewReplacer("\\", "\\\\", "\"", "\\\"", "\n", "\\n").Replace(s) + `"`
+		return `"` + strings.NewReplacer("\\", "\\\\", "\"", "\\\"", "\n", "\\n", "\r", "\\r").Replace(s) + `"`
+	}
+	stmts := c13Stmts(cs)
+	ev := func(i int, r string) string {
+		if !events {
+			return ""
+		}
+		return fmt.Sprintf("; t(%d, %s, \"\")", i, r)
 	}
 	for i, op := range cs.Ops {
 		name := func() string {
@@ -105,31 +225,51 @@ func c13Render(cs *c13Case, d string) string {
 			fmt.Fprintf(&b, "  if (STOP == %d) exit 2; if (STOP == -%d) x = 1 / zero\n", i+1, i+1)
 		}
 		stmt := func(redir string) string {
-			if strings.HasSuffix(op.C, "\n") && i%3 != 0 {
-				return "print " + q(strings.TrimSuffix(op.C, "\n")) + redir
+			st := stmts[i]
+			var as []string
+			for _, a := range st.Args {
+				as = append(as, q(a))
 			}
-			return "printf \"%s\", " + q(op.C) + redir
+			switch {
+			case !st.Printf && len(as) == 0:
+				return "print" + redir
+			case !st.Printf:
+				return "print " + strings.Join(as, ", ") + redir
+			case st.IsFmt || len(as) == 0:
+				return "printf " + q(st.Fmt) + redir
+			}
+			return "printf " + q(strings.Repeat("%s", len(as))) + ", " + strings.Join(as, ", ") + redir
 		}
 		switch op.K {
+		case "ofs":
+			fmt.Fprintf(&b, "  OFS = %s\n", q(op.C))
+		case "ors":
+			fmt.Fprintf(&b, "  ORS = %s\n", q(op.C))
+		case "rec":
+			fmt.Fprintf(&b, "  $0 = %s\n", q(op.C))
 		case "p":
-			fmt.Fprintf(&b, "  %s; t(%d, 0, \"\")\n", stmt(""), i)
+			fmt.Fprintf(&b, "  %s%s\n", stmt(""), ev(i, "0"))
 		case "gt", "app", "pipe":
 			r := map[string]string{"gt": " > ", "app": " >> ", "pipe": " | "}[op.K]
-			fmt.Fprintf(&b, "  %s; t(%d, 0, \"\")\n", stmt(r+name()), i)
+			fmt.Fprintf(&b, "  %s%s\n", stmt(r+name()), ev(i, "0"))
 		case "close":
-			fmt.Fprintf(&b, "  r = close(%s); t(%d, r, \"\")\n", name(), i)
+			fmt.Fprintf(&b, "  r = close(%s)%s\n", name(), ev(i, "r"))
 		case "ff":
-			fmt.Fprintf(&b, "  r = fflush(%s); t(%d, r, \"\")\n", name(), i)
+			fmt.Fprintf(&b, "  r = fflush(%s)%s\n", name(), ev(i, "r"))
 		case "ffa":
 			if i%2 == 0 {
-				fmt.Fprintf(&b, "  r = fflush(); t(%d, r, \"\")\n", i)
+				fmt.Fprintf(&b, "  r = fflush()%s\n", ev(i, "r"))
 			} else {
-				fmt.Fprintf(&b, "  r = fflush(\"\"); t(%d, r, \"\")\n", i)
+				fmt.Fprintf(&b, "  r = fflush(\"\")%s\n", ev(i, "r"))
 			}
 		case "sys":
-			fmt.Fprintf(&b, "  r = system(%s); t(%d, r, \"\")\n", name(), i)
+			fmt.Fprintf(&b, "  r = system(%s)%s\n", name(), ev(i, "r"))
 		case "gf":
-			fmt.Fprintf(&b, "  v = \"\"; r = (getline v < %s); t(%d, r, v)\n", name(), i)
+			if events {
+				fmt.Fprintf(&b, "  v = \"\"; r = (getline v < %s); t(%d, r, v)\n", name(), i)
+			} else {
+				fmt.Fprintf(&b, "  v = \"\"; r = (getline v < %s)\n", name())
+			}
 		case "exit":
 			fmt.Fprintf(&b, "  exit %d\n", op.V)
 		case "fail":
@@ -282,7 +422,11 @@ func c13RunBin(cs *c13Case) (obs c13Obs) {
 		return obs
 	}
 	var errb bytes.Buffer
-	cmd := exec.Command(c13Goawk, cs.Raw)
+	args := []string{cs.Raw}
+	if cs.NL != "" {
+		args = []string{"-N", cs.NL, cs.Raw}
+	}
+	cmd := exec.Command(c13Goawk, args...)
 	cmd.Stdout = f
 	cmd.Stderr = &errb
 	runErr := cmd.Run()
@@ -384,7 +528,8 @@ func c13Run(cs *c13Case) (obs c13Obs) {
 	sink := &c13Sink{limit: cs.Fail, failedAt: -1, seq: &seq, seqMu: &mu}
 	var errw c13Sink
 	errw.limit, errw.failedAt, errw.seq, errw.seqMu = -1, -1, &seq, &mu
-	cfg := &interp.Config{Stdin: strings.NewReader(""), Error: &errw, Environ: []string{}, Vars: []string{"D", d, "SFX", "", "STOP", "0"}, Funcs: funcs}
+	nlMode := map[string]interp.NewlineMode{"": interp.SmartNewlineMode, "smart": interp.SmartNewlineMode, "raw": interp.RawNewlineMode, "crlf": interp.CRLFNewlineMode}[cs.NL]
+	cfg := &interp.Config{Stdin: strings.NewReader(""), Error: &errw, Environ: []string{}, Vars: []string{"D", d, "SFX", "", "STOP", "0"}, Funcs: funcs, NewlineOutput: nlMode}
 	var bw *bufio.Writer
 	var rec *c13Rec
 	var bb *bytes.Buffer
@@ -417,7 +562,7 @@ func c13Run(cs *c13Case) (obs c13Obs) {
 			po.limit, po.failedAt, po.seq, po.seqMu = -1, -1, &seq, &mu
 			pe.limit, pe.failedAt, pe.seq, pe.seqMu = -1, -1, &seq, &mu
 			p.Execute(&interp.Config{Stdin: strings.NewReader(""), Output: &po, Error: &pe, Environ: []string{},
-				Vars: []string{"D", d, "SFX", pv.Sfx, "STOP", fmt.Sprint(pv.Stop)}, Funcs: funcs})
+				Vars: []string{"D", d, "SFX", pv.Sfx, "STOP", fmt.Sprint(pv.Stop)}, Funcs: funcs, NewlineOutput: nlMode})
 			ents, _ := os.ReadDir(d)
 			for _, e := range ents {
 				if strings.HasSuffix(e.Name(), ".out") {
@@ -500,6 +645,7 @@ func c13EvalSpec(cs *c13Case) c13Spec {
 	}
 	open := map[string]*c13SpecStream{}
 	var order []string
+	eff := c13Eff(cs)
 	echoAlive := func() int {
 		n := 0
 		for k, s := range open {
@@ -535,7 +681,11 @@ func c13EvalSpec(cs *c13Case) c13Spec {
 		return "n0"
 	}
 loop:
-	for _, op := range cs.Ops {
+	for i, op := range cs.Ops {
+		if c13IsSet(op.K) {
+			continue // an assignment: no destination involved, no return value
+		}
+		op.C = eff[i] // what the destination must receive: the statement's writes, each as the newline mode transforms it
 		sp.Executed++
 		ret := ""
 		switch op.K {
@@ -674,6 +824,17 @@ func c13RealRets(cs *c13Case, obs *c13Obs) []string {
 
 type c13Verdict struct{ What, Finding, Got, Want string }
 
+// c13Visible: the operations that return something / take part in the model (assignments to OFS, ORS, $0 do not)
+func c13Visible(cs *c13Case) []c13Op {
+	var res []c13Op
+	for _, op := range cs.Ops {
+		if !c13IsSet(op.K) {
+			res = append(res, op)
+		}
+	}
+	return res
+}
+
 func c13Oracle(cs *c13Case, obs *c13Obs) (bad []c13Verdict, sp c13Spec) {
 	if cs.Bin != "" {
 		return c13BinOracle(cs, obs), sp
@@ -760,12 +921,13 @@ func c13Oracle(cs *c13Case, obs *c13Obs) (bad []c13Verdict, sp c13Spec) {
 		}
 	}
 	rets := c13RealRets(cs, obs)
+	vis := c13Visible(cs)
 	for i, want := range sp.Rets {
 		if want == "" || i >= len(rets) {
 			continue
 		}
 		if rets[i] != want {
-			bad = append(bad, c13Verdict{What: fmt.Sprintf("operation %d (%s %s) returned the wrong value", i, cs.Ops[i].K, cs.Ops[i].N), Got: rets[i], Want: want})
+			bad = append(bad, c13Verdict{What: fmt.Sprintf("operation %d (%s %s) returned the wrong value", i, vis[i].K, vis[i].N), Got: rets[i], Want: want})
 		}
 	}
 	return bad, sp
@@ -794,13 +956,31 @@ func c13LeanReq(cs *c13Case) string {
 	if len(pairs) > 0 {
 		fsArg = strings.Join(pairs, ",")
 	}
-	fmt.Fprintf(&b, "run %s %s %s", buffered, fail, fsArg)
-	for _, op := range cs.Ops {
+	crlf := "0"
+	if c13CRLF(cs.NL) {
+		crlf = "1"
+	}
+	fmt.Fprintf(&b, "runx %s %s %s %s", crlf, buffered, fail, fsArg)
+	stmts := c13Stmts(cs)
+	body := func(i int) string { // P = bare print, P<arg>+<arg>… = print with arguments, F<s> = printf (one write)
+		st := stmts[i]
+		if st.Printf {
+			return "F" + vh.HxS(st.Writes[0])
+		}
+		var as []string
+		for _, a := range st.Args {
+			as = append(as, vh.HxS(a))
+		}
+		return "P" + strings.Join(as, "+")
+	}
+	for i, op := range cs.Ops {
 		switch op.K {
+		case "ofs", "ors", "rec":
+			fmt.Fprintf(&b, " %s:%s", op.K, vh.HxS(op.C))
 		case "p":
-			fmt.Fprintf(&b, " p:%s", vh.HxS(op.C))
+			fmt.Fprintf(&b, " p:%s", body(i))
 		case "gt", "app", "pipe":
-			fmt.Fprintf(&b, " %s:%s:%s", op.K, vh.HxS(op.N), vh.HxS(op.C))
+			fmt.Fprintf(&b, " %s:%s:%s", op.K, vh.HxS(op.N), body(i))
 		case "close", "ff", "sys", "gf":
 			fmt.Fprintf(&b, " %s:%s", op.K, vh.HxS(op.N))
 		case "ffa", "fail":
@@ -831,7 +1011,8 @@ func c13Compare(cs *c13Case, obs *c13Obs, ans string) string {
 			return fmt.Sprintf("real run completed %d operations, model %d", len(rets), len(mrets))
 		}
 		if mrets[i] != r {
-			return fmt.Sprintf("op %d (%s %s): model returns %s, real %s", i, cs.Ops[i].K, cs.Ops[i].N, mrets[i], r)
+			vis := c13Visible(cs)
+			return fmt.Sprintf("op %d (%s %s): model returns %s, real %s", i, vis[i].K, vis[i].N, mrets[i], r)
 		}
 	}
 	extra := len(mrets) - len(rets)
@@ -1043,13 +1224,13 @@ func c13Random(c *vh.Ctx, faultFree bool) c13Case {
 		case k < 38:
 			op = c13Op{K: "gf", N: files[r.Intn(3)]}
 		case k < 39:
-			if i > n/2 {
+			if i > n/2 || (i > 0 && r.Intn(3) == 0) {
 				op = c13Op{K: "exit", V: r.Intn(4)}
 			} else {
 				op = c13Op{K: "p", C: tok(i)}
 			}
 		default:
-			if i > n/2 {
+			if i > n/2 || (i > 0 && r.Intn(3) == 0) {
 				op = c13Op{K: "fail"}
 			} else {
 				op = c13Op{K: "app", N: pick(files), C: tok(i)}
@@ -1058,6 +1239,9 @@ func c13Random(c *vh.Ctx, faultFree bool) c13Case {
 		ops = append(ops, op)
 	}
 	cs := c13Case{Out: []string{"plain", "bufio", "rec"}[r.Intn(3)], Fail: -1, Ops: ops}
+	if r.Intn(4) == 0 {
+		cs.NL = []string{"crlf", "crlf", "raw", "smart"}[r.Intn(4)]
+	}
 	if faultFree && r.Intn(3) == 0 {
 		for k, m := 0, 1+r.Intn(2); k < m; k++ {
 			pv := c13Prev{Sfx: []string{"", "", "x"}[r.Intn(3)]}
@@ -1070,14 +1254,195 @@ func c13Random(c *vh.Ctx, faultFree bool) c13Case {
 	return cs
 }
 
+// c13NLValue: a printed value / separator / record built from letters, CR and LF, biased towards ENDING in CR and STARTING with LF
+// (the adjacencies value|OFS, value|ORS, ORS|next record are where writes meet)
+func c13NLValue(c *vh.Ctx, sep bool) string {
+	r := c.Rng
+	if sep && r.Intn(3) == 0 {
+		return []string{"\n", " ", "\r\n", "\r", "\n\r", ",", "", "\n\n", "\r\r\n", "\nx", ";\r"}[r.Intn(11)]
+	}
+	pieces := []string{"\r", "\n", "\r\n", "\r", "\n"}
+	var b strings.Builder
+	for k, m := 0, r.Intn(4); k < m; k++ {
+		if r.Intn(2) == 0 {
+			b.WriteByte(byte('a' + r.Intn(26)))
+		} else {
+			b.WriteString(pieces[r.Intn(len(pieces))])
+		}
+	}
+	v := b.String()
+	switch r.Intn(6) {
+	case 0:
+		v += "\r"
+	case 1:
+		v = "\n" + v
+	case 2:
+		v = "\n" + v + "\r"
+	}
+	return v
+}
+
+// c13RandomNL: histories of print statements in every form (bare print of $0, print with 1–3 arguments, printf with arguments,
+// printf with a literal format) to every kind of destination, with OFS / ORS / $0 assigned along the way, under a
+// newline-output mode; children: the storing commands, and (rarely) the one that copies to the shared stdout
+func c13RandomNL(c *vh.Ctx, children bool) c13Case {
+	r := c.Rng
+	files := []string{"f1", "f2", "f3"}
+	pipes := []string{"sink0a", "sink3b", "sink0a", "echo1"}
+	var used []string
+	dest := func() (string, string) {
+		switch k := r.Intn(20); {
+		case k < 7:
+			return "p", ""
+		case k < 11:
+			n := files[r.Intn(3)]
+			used = append(used, n)
+			return "gt", n
+		case k < 14:
+			n := files[r.Intn(3)]
+			used = append(used, n)
+			return "app", n
+		case k < 16:
+			return []string{"gt", "app"}[r.Intn(2)], []string{"-", "/dev/stdout"}[r.Intn(2)]
+		case k < 19 && children:
+			n := pipes[r.Intn(len(pipes))]
+			used = append(used, n)
+			return "pipe", n
+		}
+		return "p", ""
+	}
+	n := 3 + r.Intn(9)
+	var ops []c13Op
+	for i := 0; i < n; i++ {
+		var op c13Op
+		switch k := r.Intn(30); {
+		case k < 3:
+			op = c13Op{K: "ors", C: c13NLValue(c, true)}
+		case k < 6:
+			op = c13Op{K: "ofs", C: c13NLValue(c, true)}
+		case k < 8:
+			op = c13Op{K: "rec", C: c13NLValue(c, false)}
+		case k < 22:
+			op.K, op.N = dest()
+			switch f := r.Intn(10); {
+			case f < 2:
+				op.F = "print" // bare
+			case f < 7:
+				op.F = "print"
+				for a, m := 0, 1+r.Intn(3); a < m; a++ {
+					op.A = append(op.A, c13NLValue(c, false))
+				}
+			case f < 9:
+				op.F = "printf"
+				for a, m := 0, 1+r.Intn(2); a < m; a++ {
+					op.A = append(op.A, c13NLValue(c, false))
+				}
+			default:
+				op.F, op.C = "fmt", c13NLValue(c, false)
+			}
+		case k < 25:
+			op = c13Op{K: "close", N: "f1"}
+			if len(used) > 0 {
+				op.N = used[r.Intn(len(used))]
+			}
+		case k < 26:
+			op = c13Op{K: "ffa"}
+		case k < 27:
+			op = c13Op{K: "ff", N: "f2"}
+			if len(used) > 0 {
+				op.N = used[r.Intn(len(used))]
+			}
+		case k < 28 && children:
+			op = c13Op{K: "sys", N: []string{"snap_f1", "snap_f2", "snap_f3", "say_hi"}[r.Intn(4)]}
+		case k < 29 && i > 1:
+			op = c13Op{K: "exit", V: r.Intn(4)}
+		case i > 1:
+			op = c13Op{K: "fail"}
+		default:
+			op = c13Op{K: "p", F: "print", A: []string{c13NLValue(c, false)}}
+		}
+		ops = append(ops, op)
+	}
+	return c13Case{Out: []string{"plain", "bufio", "rec"}[r.Intn(3)], Fail: -1, NL: []string{"crlf", "crlf", "crlf", "raw", "smart"}[r.Intn(5)], Ops: ops}
+}
+
+// c13EndSweep: the run ends (run-time error / exit, alternating) before EVERY operation position of a history, and after the
+// last one: everything printed before that point must be delivered
+func c13EndSweep(base c13Case, salt int) []c13Case {
+	var body []c13Op
+	for _, op := range base.Ops {
+		if op.K != "exit" && op.K != "fail" {
+			body = append(body, op)
+		}
+	}
+	var res []c13Case
+	for k := 0; k <= len(body); k++ {
+		cs := base
+		cs.Prev = nil
+		cs.Ops = append(append([]c13Op{}, body[:k]...), c13Op{K: "fail"})
+		if (k+salt)%4 == 3 {
+			cs.Ops[k] = c13Op{K: "exit", V: 1 + k%3}
+		}
+		cs.Ops = append(cs.Ops, c13Op{K: "p", C: "never\n"})
+		cs.Out = []string{"bufio", "plain", "rec"}[(k+salt)%3]
+		res = append(res, cs)
+	}
+	return res
+}
+
+// c13NLCorpus: the rule of the newline-output mode at every adjacency, every destination, every statement form
+func c13NLCorpus() []c13Case {
+	pr := func(k, n string, a ...string) c13Op { return c13Op{K: k, N: n, F: "print", A: a} }
+	pf := func(k, n string, a ...string) c13Op { return c13Op{K: k, N: n, F: "printf", A: a} }
+	var res []c13Case
+	vals := []string{"a\r", "a\r\n", "a\n", "\r", "\n", "\r\n", "a\r\r", "\na", "a\r\nb\nc\r"}
+	seps := []string{"\n", "\r\n", " ", "\r", "\n\r", ""}
+	dsts := [][2]string{{"p", ""}, {"gt", "f1"}, {"app", "f3"}, {"pipe", "sink0a"}, {"gt", "/dev/stdout"}, {"pipe", "echo1"}}
+	// the smallest witnesses first: a CR at the end of one write meets an LF at the start of the next
+	for di, dst := range dsts {
+		for k, ops := range [][]c13Op{
+			{pr(dst[0], dst[1], "a\r")},
+			{{K: "ofs", C: "\n"}, pr(dst[0], dst[1], "a\r", "b")},
+			{{K: "rec", C: "x\r"}, pr(dst[0], dst[1])},
+			{{K: "ors", C: "\r"}, pr(dst[0], dst[1], "a"), pf(dst[0], dst[1], "\nb")},
+			{pf(dst[0], dst[1], "a\r\n", "\r", "\n")},
+		} {
+			res = append(res, c13Case{Out: []string{"plain", "bufio", "rec"}[(di+k)%3], Fail: -1, NL: "crlf", Ops: ops})
+		}
+	}
+	for _, nl := range []string{"crlf", "raw", "smart", ""} {
+		for di, dst := range dsts {
+			var ops []c13Op
+			for vi, v := range vals {
+				ops = append(ops, pr(dst[0], dst[1], v), pr(dst[0], dst[1], v, "x"+v), pf(dst[0], dst[1], v), pf(dst[0], dst[1], v, "\n"))
+				if vi%3 == 2 {
+					ops = append(ops, c13Op{K: "rec", C: v}, pr(dst[0], dst[1]))
+				}
+			}
+			res = append(res, c13Case{Out: []string{"plain", "bufio", "rec"}[di%3], Fail: -1, NL: nl, Ops: ops})
+			for si, sp := range seps {
+				ops = []c13Op{{K: "ofs", C: sp}, {K: "ors", C: seps[(si+1)%len(seps)]}}
+				for _, v := range vals[:4] {
+					ops = append(ops, pr(dst[0], dst[1], v, v), c13Op{K: "rec", C: v}, pr(dst[0], dst[1]), c13Op{K: dst[0], N: dst[1], F: "fmt", C: v + sp})
+				}
+				res = append(res, c13Case{Out: []string{"bufio", "rec", "plain"}[(di+si)%3], Fail: -1, NL: nl, Ops: ops})
+			}
+		}
+	}
+	return res
+}
+
 func main() { vh.Main("C13", runC13) }
 
 func runC13(c *vh.Ctx) {
-	c.Rule("a case = kind of Config.Output (plain writer / bufio.Writer / recording flusher) x fault offset (none, or every byte offset of the " +
+	c.Rule("a case = newline-output mode (not set / smart / raw / CRLF; -N on the binary) x kind of Config.Output (plain writer / bufio.Writer / recording flusher) x fault offset (none, or every byte offset of the " +
 		"standard-output log) x a history of 2–13 operations drawn from print/printf to stdout, > and >> to three files (one pre-existing), " +
 		"to \"-\", /dev/stdout, /dev/stderr, | to commands (two that store their input and exit 0/3, one that copies it to the shared stdout at " +
 		"EOF), close, fflush(name), fflush(), system (echo to the shared stdout, copy a file for inspection, exit k), getline < file, exit k, " +
-		"a run-time error; names are re-used so that one name meets several redirects; non-trivial = the history writes to at least two " +
+		"a run-time error (also placed before EVERY operation position of a history); print statements in every form (bare print of $0, print " +
+		"with 1–3 arguments, printf with arguments, printf with a literal format) with OFS / ORS / $0 assigned along the way and values that " +
+		"contain, start with and end in CR, LF, CR LF, judged write by write (each piece of a print is one write; in CRLF mode each write has its " +
+		"CR LF pairs read as LF and every LF delivered as CR LF); names are re-used so that one name meets several redirects; non-trivial = the history writes to at least two " +
 		"destinations or closes/re-opens one")
 	var cases []c13Case
 	if c.ReplayFile != "" {
@@ -1098,6 +1463,7 @@ func runC13(c *vh.Ctx) {
 		}
 	} else {
 		cases = c13Corpus()
+		cases = append(cases, c13NLCorpus()...)
 		cases = append(cases, c13F25Witness())
 		if bd, err := os.MkdirTemp("", "c13bin_"); err == nil {
 			defer os.RemoveAll(bd)
@@ -1105,6 +1471,21 @@ func runC13(c *vh.Ctx) {
 				c.Fail(vh.Failure{Kind: "oracle", What: "the goawk binary does not build: " + err.Error(), Case: "go build"})
 			} else {
 				bin := c13BinCases()
+				// the command line's -N mode: print statements to standard output only, through the binary
+				for i, n := 0, c.N(12, 60); i < n; i++ {
+					cs := c13RandomNL(c, false)
+					var ops []c13Op
+					for _, op := range cs.Ops {
+						if c13IsSet(op.K) || op.K == "p" || op.K == "exit" || ((op.K == "gt" || op.K == "app") && (op.N == "-" || op.N == "/dev/stdout")) {
+							ops = append(ops, op)
+						}
+					}
+					cs.Ops = append(ops, c13Op{K: "p", F: "print", A: []string{"end\r"}})
+					sp := c13EvalSpec(&cs)
+					b := c13Case{Out: "binary", Fail: -1, NL: cs.NL, Raw: c13RenderOpt(&cs, "", false), Want: sp.Stdout, Bin: "ok"}
+					fmt.Sscanf(sp.Outcome, "ok%d", &b.Exit)
+					bin = append(bin, b)
+				}
 				cases = append(cases, bin...)
 				c.Note(fmt.Sprintf("%d runs of the goawk binary (built from the tree under test) with a working / read-only / full / closed standard output", len(bin)))
 			}
@@ -1113,11 +1494,30 @@ func runC13(c *vh.Ctx) {
 		for i, n := 0, c.N(300, 4000); i < n; i++ {
 			cases = append(cases, c13Random(c, true))
 		}
+		for i, n := 0, c.N(300, 4000); i < n; i++ {
+			cases = append(cases, c13RandomNL(c, i%3 == 0))
+		}
 		nFree := len(cases) - nCorpus
+		// the run ends before every operation position
+		nSweep := 0
+		for i, n := 0, c.N(16, 200); i < n; i++ {
+			var base c13Case
+			if i%2 == 0 {
+				base = c13Random(c, true)
+			} else {
+				base = c13RandomNL(c, i%4 == 1)
+			}
+			sw := c13EndSweep(base, i)
+			cases = append(cases, sw...)
+			nSweep += len(sw)
+		}
 		// fault injection: histories without child processes, a failure at every byte offset, plain and buffered
 		nFault := 0
 		for i, n := 0, c.N(25, 150); i < n; i++ {
 			base := c13Random(c, false)
+			if i%3 == 2 {
+				base = c13RandomNL(c, false)
+			}
 			total := len(c13EvalSpec(&base).Stdout)
 			for k := 0; k <= total; k++ {
 				for _, out := range []string{"plain", "bufio", "rec"} {
@@ -1128,7 +1528,8 @@ func runC13(c *vh.Ctx) {
 				}
 			}
 		}
-		c.Note(fmt.Sprintf("%d corpus cases, %d generated fault-free histories, %d fault-injection runs (every byte offset x plain/bufio/recording flusher)", nCorpus, nFree, nFault))
+		c.Note(fmt.Sprintf("%d corpus cases, %d generated fault-free histories (half of them print statements in every form under a newline-output mode), "+
+			"%d runs that end by a run-time error / exit before every operation position of a history, %d fault-injection runs (every byte offset x plain/bufio/recording flusher)", nCorpus, nFree, nSweep, nFault))
 		c.Note("F25 (a |-command alive while the program writes to an unsynchronised Config.Output): the quick and thorough tiers replay one " +
 			"deterministic witness (Config.Output = *bytes.Buffer) and otherwise run such histories only with a synchronised plain writer; racing " +
 			"writes into a bufio.Writer are not exercised (they would make the check flaky)")
@@ -1235,6 +1636,24 @@ func runC13(c *vh.Ctx) {
 		c.Eval(string(key), len(dests) >= 2 || reopen || cs.Raw != "")
 		c.OracleCase()
 		c.Hit("output:" + cs.Out)
+		c.Hit("newline-output:" + map[string]string{"": "not set (smart)"}[cs.NL] + cs.NL)
+		for k, st := range c13Stmts(cs) {
+			if st == nil {
+				continue
+			}
+			form := "printf"
+			if !st.Printf {
+				form = fmt.Sprintf("print/%d-args", len(st.Args))
+			}
+			c.Hit("statement:" + form)
+			if c13CRLF(cs.NL) {
+				for w := 0; w+1 < len(st.Writes); w++ {
+					if strings.HasSuffix(st.Writes[w], "\r") && strings.HasPrefix(st.Writes[w+1], "\n") {
+						c.Hit("crlf-mode:write ending in CR meets write starting with LF, dest " + cs.Ops[k].K)
+					}
+				}
+			}
+		}
 		c.Hit(fmt.Sprintf("earlier-executes-on-same-interpreter:%d", len(cs.Prev)))
 		if cs.Bin != "" {
 			c.Hit("binary-stdout:" + cs.Bin)
